@@ -30,3 +30,6 @@ ASSUMPTIONS = [
     "extract_bands may write more bands than nchans/chanpersub (it runs to the top of the band): every written band must equal its definition",
     "fault configuration: the call raises, or its outputs are complete and exact",
 ]
+
+# dimensions added in seeded rounds 6 and 7
+PROBES = list(PROBES) + ["output-names-held-longer-files:junk", "output-names-held-longer-files:rerun", "integer-arguments-as-numpy-scalars"]
